@@ -8,6 +8,8 @@
 #include <string.h>
 #include <stdlib.h>
 #include "stdio_model.h"
+#include "cstring_model.h"
+#include <strings.h>
 
 static unsigned long long rs = 0x9E3779B97F4A7C15ull;
 static unsigned rnd(void) { rs ^= rs << 13; rs ^= rs >> 7; rs ^= rs << 17; return (unsigned) (rs >> 11); }
@@ -98,9 +100,74 @@ static void gen_input(void) {
   inp[n] = '\0';
 }
 
+/* ---- second part: the libc number parsers and comparisons modelled in models/cstring_model.c ---- */
+static const char NALPHA_S[] = " \t+-00112345678999abcdefABCDEFxXzZgG..eE";
+static void gen_numstr(char *o) {
+  int n = 0, k, m;
+  unsigned t = rn(10);
+  if (rn(4) == 0) for (k = (int) rn(3); k > 0; k--) o[n++] = " \t\n"[rn(3)];
+  if (rn(3) == 0) o[n++] = "+-"[rn(2)];
+  if (t < 2) { o[n++] = '0'; o[n++] = "xX"[rn(2)]; }
+  else if (t < 3) o[n++] = '0';
+  if (t < 6) { m = (int) rn(7); for (k = 0; k < m; k++) o[n++] = "0123456789abcdefABCDEF"[rn(rn(2) ? 10 : 22)]; }
+  else if (t < 7) { m = 15 + (int) rn(10); for (k = 0; k < m; k++) o[n++] = (char) ('0' + rn(10)); }     /* overflow range */
+  else if (t < 9) {                                                                           /* decimal floating notation */
+    m = (int) rn(7); for (k = 0; k < m; k++) o[n++] = (char) ('0' + rn(10));
+    if (rn(3)) { o[n++] = '.'; m = (int) rn(6); for (k = 0; k < m; k++) o[n++] = (char) ('0' + rn(10)); }
+    if (rn(2)) { o[n++] = "eE"[rn(2)]; if (rn(2)) o[n++] = "+-"[rn(2)]; m = (int) rn(3); for (k = 0; k < m; k++) o[n++] = (char) ('0' + rn(rn(3) ? 3 : 10)); }
+  } else { m = (int) rn(9); for (k = 0; k < m; k++) o[n++] = NALPHA_S[rn((unsigned) sizeof NALPHA_S - 1)]; }
+  for (k = (int) rn(3); k > 0; k--) o[n++] = NALPHA_S[rn((unsigned) sizeof NALPHA_S - 1)];
+  o[n] = '\0';
+}
+static int sgn(int x) { return (x > 0) - (x < 0); }
+#define NUMFAIL(what) do { printf("sscanf_diff: DIFFERENCE in %s: input <%s> base %d\n", what, b, base); return 1; } while (0)
+extern long vm_float_deferred;
+static int numeric_part(long N) {
+  static const int BASES[] = {0, 10, 16, 8, 2, 36, 7};
+  static const char *NF[] = {"%d", "%i", "%u", "%x", "%o", "%ld", "%lld", "%hd", "%hhd", "%li", "k=%i", "%i,%d", "%d %[abcdef]", "%lf", "%f", "%lf %d", "%lg=%i"};
+  long it, fast = 0, deferred = 0;
+  char b[80], c[80];
+  for (it = 0; it < N; it++) {
+    int base = BASES[rn(7)], ndig = 0, k;
+    char *e1, *e2;
+    gen_numstr(b);
+    { long x = strtol(b, &e1, base), y = vm_strtol(b, &e2, base); if (x != y || e1 != e2) NUMFAIL("strtol"); }
+    { long long x = strtoll(b, &e1, base), y = vm_strtoll(b, &e2, base); if (x != y || e1 != e2) NUMFAIL("strtoll"); }
+    { unsigned long x = strtoul(b, &e1, base), y = vm_strtoul(b, &e2, base); if (x != y || e1 != e2) NUMFAIL("strtoul"); }
+    { unsigned long long x = strtoull(b, &e1, base), y = vm_strtoull(b, &e2, base); if (x != y || e1 != e2) NUMFAIL("strtoull"); }
+    if (atol(b) != vm_atol(b)) NUMFAIL("atol");
+    if (atoll(b) != vm_atoll(b)) NUMFAIL("atoll");
+    for (k = 0; b[k]; k++) if (b[k] >= '0' && b[k] <= '9') ndig++;
+    if (ndig <= 9 && atoi(b) != vm_atoi(b)) NUMFAIL("atoi");          /* atoi overflow is undefined behaviour */
+    { double x = strtod(b, &e1), y = vm_strtod(b, &e2);
+      if (memcmp(&x, &y, sizeof x) != 0 || e1 != e2) NUMFAIL("strtod");
+      x = atof(b); y = vm_atof(b); if (memcmp(&x, &y, sizeof x) != 0) NUMFAIL("atof");
+      if (e1 != b && x != 0.0) fast++; }
+    if (it == N - 1) deferred = vm_float_deferred;
+    { /* sscanf numeric conversions: return value and every destination byte */
+      const char *f = NF[rn((unsigned) (sizeof NF / sizeof NF[0]))];
+      union { long long ll; double d; char raw[16]; } a1, a2, a3, a4; int r1, r2;
+      memset(&a1, 0x55, sizeof a1); memset(&a2, 0x55, sizeof a2); memset(&a3, 0x55, sizeof a3); memset(&a4, 0x55, sizeof a4);
+      if (rn(3) == 0) { memmove(b + 2, b, strlen(b) + 1); b[0] = 'k'; b[1] = '='; }
+      r1 = sscanf(b, f, &a1, &a2); r2 = vm_sscanf(b, f, &a3, &a4);
+      if (r1 != r2 || memcmp(&a1, &a3, sizeof a1) != 0 || memcmp(&a2, &a4, sizeof a2) != 0) { printf("sscanf_diff: DIFFERENCE: format <%s> input <%s>: libc %d model %d\n", f, b, r1, r2); return 1; }
+    }
+    gen_numstr(c);
+    { size_t n = rn(6);
+      if (rn(3) == 0) { strcpy(c, b); if (c[0] && rn(2)) { size_t q = rn((unsigned) strlen(c)); c[q] = (char) (c[q] ^ 0x20); } }
+      if (sgn(strncmp(b, c, n)) != sgn(vm_strncmp(b, c, n)) || sgn(strcasecmp(b, c)) != sgn(vm_strcasecmp(b, c)) ||
+          sgn(strncasecmp(b, c, n)) != sgn(vm_strncasecmp(b, c, n))) { printf("sscanf_diff: DIFFERENCE in strncmp/strcasecmp: <%s> <%s> n=%zu\n", b, c, n); return 1; }
+    }
+  }
+  printf("sscanf_diff: %ld strings: strtol/strtoll/strtoul/strtoull (7 bases, value and end pointer), atoi/atol/atoll, strtod/atof "
+         "(bit-identical; %ld non-zero conversions, %ld model calls outside the modelled range deferred to libc), numeric sscanf conversions, strncmp/strcasecmp/strncasecmp: model == libc\n", N, fast, deferred);
+  return 0;
+}
+
 int main(int argc, char **argv) {
   long N = argc > 1 ? atol(argv[1]) : 400000, it, hist[6] = {0}, real = 0;
   char a[MAXCONV][BUFSZ], b[MAXCONV][BUFSZ];
+  if (numeric_part(N / 2)) return 1;
   for (it = 0; it < N; it++) {
     int ra, rb;
     gen_format(); gen_input();
